@@ -381,13 +381,15 @@ fn proof_model_lines(em: &mut Emitter, rng: &mut Rng) {
             impl_line,
         );
         // the real verifier's recomputation for arbitrary proofs in known coordinates
-        for m in 0..3 {
+        // m = 3..5: points at infinity (E_C alone, T_σ and T_ρ, all three with zero responses) — the recomputation is
+        // the same linear map there as everywhere else
+        for m in 0..6 {
             let rv = |rng: &mut Rng, full: bool| -> [Scalar; 4] { if full { [rng.scalar(), rng.scalar(), rng.scalar(), rng.scalar()] } else { [rng.scalar(), z, z, rng.scalar()] } };
-            let ec = rv(rng, m == 0);
-            let ts = if m == 2 { [z, rng.scalar(), z, z] } else { rv(rng, true) };
-            let tr = if m == 2 { [z, z, rng.scalar(), z] } else { rv(rng, true) };
+            let ec = if m == 3 || m == 5 { [z, z, z, z] } else { rv(rng, m == 0) };
+            let ts = if m == 4 || m == 5 { [z, z, z, z] } else if m == 2 { [z, rng.scalar(), z, z] } else { rv(rng, true) };
+            let tr = if m == 4 || m == 5 { [z, z, z, z] } else if m == 2 { [z, z, rng.scalar(), z] } else { rv(rng, true) };
             let vc = if m == 1 { [rng.scalar(), z, z, z] } else { rv(rng, true) };
-            let ss: Vec<Scalar> = (0..5).map(|_| rng.scalar()).collect();
+            let ss: Vec<Scalar> = (0..5).map(|i| if m == 5 && i < 4 { z } else { rng.scalar() }).collect();
             let c = rng.scalar();
             let mut j = j1.clone();
             j["e_c"] = json!(g1_hex_c(&lin(&bases, &ec)));
